@@ -584,7 +584,6 @@ impl<W: Write> RdbWriter<W> {
                 
                 // Get all items and write them
                 let len = skiplist.len();
-                self.write_length(len)?;
                 
                 #[cfg(feature = "verif-hooks")]
                 crate::verif_hooks::point(crate::verif_hooks::RDB_ZSET_MID, len as u64);
@@ -592,7 +591,10 @@ impl<W: Write> RdbWriter<W> {
                 // Note: This is a suboptimal approach since we need to materialize
                 // all members in memory. A better approach would be to have a streaming
                 // iterator in the SkipList implementation.
-                let items = skiplist.range_by_rank(0, len - 1).items;
+                let items = if len == 0 { Vec::new() } else { skiplist.range_by_rank(0, len - 1).items };
+                
+                // The count written must be the number of items that follow, whatever len() said
+                self.write_length(items.len())?;
                 
                 for (member, score) in items {
                     self.write_string(&member)?;
